@@ -91,7 +91,9 @@ where
         let start = SystemTime::now();
         let mut request = req;
         let enable_auth = self.app_share_data.sys_config.openapi_enable_auth;
-        let path = request.path();
+        // the path the router dispatches on (percent-escapes decoded), not the raw request line:
+        // `/%6Eacos/v1/cs/configs` is routed to `/nacos/v1/cs/configs`
+        let path = request.match_info().as_str();
         let is_check_path = if enable_auth {
             (API_PATH.is_match(path) || R_NACOS_API_PATH.is_match(path))
                 && !IGNORE_PATH.contains(&path)
